@@ -10,7 +10,7 @@ from mon.gen.heur import make_heuristic
 from mon.ref import mdp as Rf
 
 PROP = "C04"
-CASES = {"quick": 1600, "thorough": 24000}
+CASES = {"quick": 1600, "thorough": 60000}
 CASE_TIMEOUT = 60
 REQUIRED = ["lrtdp_calls", "listener_timesteps", "listener_trials", "values_checked_online"]
 RULE = ("random proper MDP specs (gamma in {.5,.9,.99,1}; initial mass on absorbing states; live absorbing "
